@@ -326,3 +326,13 @@ class Outcome:
 
 def canon(x):
     return json.dumps(x, sort_keys=True, separators=(",", ":"), default=str)
+
+
+def bud(budget, quick, thorough):
+    """scenario count for a tier; "search" (a gate broke in the quick tier: look harder for a failing input before
+    reporting) uses a fifth of the thorough budget"""
+    if budget == "quick":
+        return quick
+    if budget == "search":
+        return max(quick, thorough // 5)
+    return thorough
